@@ -34,6 +34,7 @@ def make_copy(dst):
 
 
 SEED_DIR = "seeded"
+MERGE = False
 
 
 def evaluate(seed, checks, skip_tests, tier):
@@ -90,6 +91,15 @@ def evaluate(seed, checks, skip_tests, tier):
             res["checks"][c] = {"exit": r.returncode, "wall_s": round(time.time() - t0, 1), "mechanisms": [v[:260] for v in viol[:4]]}
             if notes:
                 res["checks"][c]["notes"] = notes[:3]
+        if MERGE:
+            # re-run of some checks only: keep what the other checks reported in the earlier evaluation of this patch
+            prev = os.path.join(sdir, "result.json")
+            if os.path.exists(prev):
+                try:
+                    old_checks = json.load(open(prev)).get("checks") or {}
+                    res["checks"] = {**old_checks, **res["checks"]}
+                except Exception:
+                    pass
         res["caught_by"] = sorted(c for c, x in res["checks"].items() if x["exit"] == 1)
         return res
     finally:
@@ -116,6 +126,9 @@ def main(argv):
             SEED_DIR = next(it)
         elif a == "--skip-tests":
             pass
+        elif a == "--merge-result":
+            global MERGE
+            MERGE = True
         else:
             seeds.append(a)
     for s in seeds:
